@@ -85,7 +85,7 @@ PROPS = {
                 "every position, ciphertexts of 60 KiB, 64 KiB±32, 100 KiB, 1 MiB±64, 1 MiB+65, 1 MiB+64 KiB, 2.5 MiB made by the keyset and "
                 "read back through sources that return everything at once / 4 KiB per read / the last bytes with io.EOF: must decode to "
                 "the plaintext, as under the right key's own primitive (Go-side oracle; one 100 KiB case per keyset also goes to the "
-                "model's decoder); non-trivial = every op line, distinct by line hash",
+                "model's decoder); non-trivial = every op line, distinct by line hash c07b huge segments (huge.go): AES-GCM-HKDF and AES-CTR-HMAC keys with ciphertext segment sizes 4 MiB−1 … 32 MiB (thorough up to 64 MiB), every header length / hash / tag size, first-segment offsets up to 2 MiB+5, through subtle constructors, key-level primitives, single-key keysets and two-key keysets with the right key second; oracle = an independent Go implementation of the documented wire format (ref.go: stdlib only, RFC 5869 written out; tied to the Lean model on every run by T enc / T encsha / T dec lines) in both directions plus the own round trip through six source kinds; in thorough one ≥ 17 MiB stream per scheme is also compared with the Lean model via !T encsha.",
         "trusted_base": [KERNEL, TIE, "io.ReadFull semantics (stdlib) are modelled: only the byte stream and the fault position matter"],
         "assumptions": ["H_seg (ideal segment AEAD) is an explicit hypothesis of manipulation_detected; non-vacuity shown by idealCipher_sound",
                         "segment-cipher round trip and expansion (Honest) are hypotheses of the reader theorem",
@@ -173,7 +173,7 @@ PROPS = {
                 "statuses, primary, key objects and serialized material, KeysetInfo, annotations), and a recording "
                 "monitoring client checks that contexts handed out never change and that primitives/key exports of earlier "
                 "handles log under the handle's own snapshot (annotations, primary, enabled ids); a case is "
-                "non-trivial if it is a state-changing or failing op (not a bare dump of ≤1 entries); distinct by op-line hash",
+                "non-trivial if it is a state-changing or failing op (not a bare dump of ≤1 entries); distinct by op-line hash Sections c11-failops / c11-fallback: Add/AddNewKeyFromParameters failing at every stage (nil, UNKNOWN_PREFIX, no serializer, unknown type URL, garbage/varint-mutated formats, parse-ok/CreateKey-fails incl. PRF-based deriver with a non-HKDF PRF, legacy key data the key parser refuses) under every output prefix type, interleaved with fixed-id adds aimed at ids in use with 0 and 0xffffffff seeded; generation success is decided outside the manager and the Lean model decides each op; after EVERY failing op entries unchanged, no reservation released, only the drawn id newly reserved, fresh Handle() unchanged, and a fixed-id add of every in-use/reserved id is still refused. Keys without a registered parser (KMS AEAD/envelope, custom type URLs incl. private material) with every prefix and special ids are read from hand-made keysets and moved with AddKey/AddKeyWithOpts; the id requirement fed to the model comes from the serialized keyset, the key object is checked against it, receiving handles are serialized, re-read and compared entry by entry.",
         "trusted_base": [KERNEL, TIE, "key generation/parsing is opaque to the model (only success/failure enters)"],
         "assumptions": ["model Manager.lean is tied to keyset/manager.go by differential execution, not by translation"],
         "manifest": {
@@ -369,7 +369,7 @@ PROPS["C14"] = {
             "occurrences, and one structural fault (unknown status/prefix, nil KeyData, disabled/destroyed/missing primary) at each chosen "
             "position, which must be rejected by every reader; NIST-curve keys in foreign integer encodings (1–3 leading zero bytes "
             "stripped, fixed, over-long; kslib.ECShortCases) whose accepted forms must be the same key as the canonical encoding; "
-            "non-trivial = keysets with ≥1 key, distinct by line hash",
+            "non-trivial = keysets with ≥1 key, distinct by line hash Round-4 passes: role swaps in nested keys — every KeyData / KeyTemplate field inside a key proto (found by a protoreflect walk: composite ML-DSA halves, the deriver's PRF key and derived-key template, KMS-envelope DEK and ECIES DEM templates) is given well-formed keys / templates of another role (private for public and vice versa with exactly the nested parameters, another type over the same curve / modulus, another algorithm, key-for-format and format-for-key; material types left / adjusted; every prefix): rejected, or every factory and the registered key-level constructor of each entry must return without panic and a created primitive must round-trip; structured mismatches of X-Wing / ML-KEM / ML-DSA / SLH-DSA / composite keys (ML-KEM part, t-hat, rho, single coefficients incl. non-reduced, bits of X25519 / Ed25519 public values, small-order and u>=p shares, seeds / d / z / rho / t1 / PK.seed / PK.root of a second key, with controls) under the same own-round-trip rule.",
     "trusted_base": [KERNEL, TIE, "per-type key parsers are an oracle bit of the model (parseOk); the harness obtains it from "
                      "protoserialization.ParseKey"],
     "assumptions": ["'never a panic' on the real code is explored (recover around every call), not proved; the theorem covers the structural gate"],
@@ -1002,16 +1002,29 @@ _G_FACTORY = {
     "FactoryHybrid": T("TinkVerif.GlueTie", "factory_hybrid_decrypt_tie factory_hybrid_decrypt_accept"),
 }
 _G_R4 = dict(_G_FACTORY)
+_G_R4.update({
+    "Jwt": T("TinkVerif.GlueTie", "jwt_validateFieldPresence_tie jwt_validateHeader_tie jwt_validateHeader_nil jwt_validateKIDInHeader_tie "
+             "jwt_Validate_tie jwt_audiences_nonempty jwt_Validate_nil"),
+    "IdReq": T("TinkVerif.GlueTie", "idreq_HasIDRequirement_tie idreq_IDRequirement_tie idreq_NewKeySerialization_tie "
+               "idreq_Fallback_IDRequirement_tie idreq_entryIdRequirement_tie idreq_NewManagerFromHandle_tie idreq_NewManagerFromHandle_model"),
+    "StreamNew": T("TinkVerif.GlueTie", "streamnew_NewAESGCMHKDF_tie streamnew_NewAESCTRHMAC_tie"),
+    "HkdfPrf": T("TinkVerif.GlueTie", "hkdfprf_NewHKDFPRF_tie hkdfprf_ValidateHKDFPRFParams_tie"),
+    "HmacNew": T("TinkVerif.GlueTie", "hmacnew_ValidateHMACParams_tie hmacnew_New_tie"),
+})
 for _p, _mods in (
-        ("C01", ["FactoryAead"]), ("C02", ["FactoryAead"]), ("C03", ["FactoryVerify"]), ("C04", ["FactoryMac"]),
-        ("C05", ["FactoryAead", "FactoryDaead", "FactoryMac", "FactoryVerify", "FactoryHybrid"]),
-        ("C06", ["FactoryHybrid"]), ("C08", ["FactoryDaead"])):
+        ("C01", ["FactoryAead", "HmacNew"]), ("C02", ["FactoryAead"]), ("C03", ["FactoryVerify"]), ("C04", ["FactoryMac", "HmacNew"]),
+        ("C05", ["FactoryAead", "FactoryDaead", "FactoryMac", "FactoryVerify", "FactoryHybrid", "Jwt"]),
+        ("C06", ["FactoryHybrid"]), ("C07", ["StreamNew"]), ("C08", ["FactoryDaead"]), ("C09", ["Jwt"]),
+        ("C11", ["IdReq"]), ("C15", ["HkdfPrf"]), ("C20", ["IdReq"])):
     PROPS[_p]["lean"] = PROPS[_p]["lean"] + [_GT + m for m in _mods]
     for m in _mods:
         PROPS[_p]["theorems"] = PROPS[_p]["theorems"] + [t for t in _G_R4[m] if t not in PROPS[_p]["theorems"]]
     PROPS[_p]["manifest"]["text"] += (" REGENERATED decision logic proved equal to the hand model on every run: " + ", ".join(_mods) +
                                        " (Factory*: the WHOLE candidate-selection loops of the keyset-level wrappers tied to Model/Wrap"
                                        " candidates / accept / macAccept for every iterator satisfying the prefixmap contract; single-key primitives"
-                                       " are abstract accept / transform functions, monitoring loggers are dropped).")
+                                       " are abstract accept / transform functions, monitoring loggers are dropped; Jwt: Validator.Validate with the clock"
+                                       " as a parameter, validateHeader / validateKIDInHeader tied to Model/Jwt; IdReq: IDRequirement of serializations,"
+                                       " NewManagerFromHandle, keysetToEntries id requirement; StreamNew / HkdfPrf / HmacNew: constructor parameter checks"
+                                       " and stored values in closed form).")
 
 NOT_BUILT = {}
